@@ -179,6 +179,16 @@ ssize_t write(int fd, const void *buf, size_t count) {
         logline("%ld write %s %ld %ld\n", k, path, (long)count, (long)r);
         return r;
     }
+    if (trace_prefix && fd == 1 && count > 0) {
+        // height markers of the trace log (`on_block(height=N) called`), in program order with the open/close events
+        const char *p = memmem(buf, count, "on_block(height=", 16);
+        if (p) {
+            long h = 0;
+            const char *q = p + 16, *end = (const char *)buf + count;
+            while (q < end && *q >= '0' && *q <= '9') { h = h * 10 + (*q - '0'); q++; }
+            logline("T marker %ld\n", h);
+        }
+    }
     return real_write(fd, buf, count);
 }
 
